@@ -78,6 +78,7 @@ pub proof fn order_facts<T: PartialOrd>(a: T, b: T, c: T)
 //@      proof fn law_assoc(a: Self::V, b: Self::V, c: Self::V) requires Self::lawful()
 //@          ensures Self::join_v(Self::join_v(a, b), c) == Self::join_v(a, Self::join_v(b, c));
 //@    fn merge
+//@      touch self.v()
 //@      ensures
 //@        Self::lawful() ==> final(self).v() == Self::join_v(old(self).v(), other.v())
 //@  impl <T: Semilattice> Semilattice for Option<T>
@@ -92,6 +93,7 @@ pub proof fn order_facts<T: PartialOrd>(a: T, b: T, c: T)
 //@      proof fn law_comm(a: Self::V, b: Self::V) { if let (Some(x), Some(y)) = (a, b) { T::law_comm(x, y); } }
 //@      proof fn law_assoc(a: Self::V, b: Self::V, c: Self::V) { if let (Some(x), Some(y), Some(z)) = (a, b, c) { T::law_assoc(x, y, z); } }
 //@    fn merge
+//@      touch self.v()
 //@  impl Semilattice for ()
 //@    add
 //@      type V = ();
@@ -102,6 +104,7 @@ pub proof fn order_facts<T: PartialOrd>(a: T, b: T, c: T)
 //@      proof fn law_comm(a: Self::V, b: Self::V) {}
 //@      proof fn law_assoc(a: Self::V, b: Self::V, c: Self::V) {}
 //@    fn merge
+//@      touch self.v()
 //@  impl Semilattice for bool
 //@    add
 //@      type V = bool;
@@ -112,6 +115,7 @@ pub proof fn order_facts<T: PartialOrd>(a: T, b: T, c: T)
 //@      proof fn law_comm(a: Self::V, b: Self::V) {}
 //@      proof fn law_assoc(a: Self::V, b: Self::V, c: Self::V) {}
 //@    fn merge
+//@      touch self.v()
 //@end
 
 //@extract crates/radicle-crdt/src/ord.rs
@@ -146,6 +150,7 @@ pub proof fn order_facts<T: PartialOrd>(a: T, b: T, c: T)
 //@          order_facts(a, b, c); order_facts(c, b, a); order_facts(a, c, b); order_facts(b, a, c); order_facts(b, c, a); order_facts(c, a, b);
 //@      }
 //@    fn merge
+//@      touch self.v()
 //@  impl <T: PartialOrd> Semilattice for Min<T>
 //@    add
 //@      type V = T;
@@ -158,6 +163,7 @@ pub proof fn order_facts<T: PartialOrd>(a: T, b: T, c: T)
 //@          order_facts(a, b, c); order_facts(c, b, a); order_facts(a, c, b); order_facts(b, a, c); order_facts(b, c, a); order_facts(c, a, b);
 //@      }
 //@    fn merge
+//@      touch self.v()
 //@end
 
 /// ASSUMED (rustc `#[derive(PartialEq, PartialOrd)]` on `struct Max<T>(T)`): compares field 0.
@@ -194,6 +200,7 @@ impl<T> FromSpecImpl<T> for Max<T> {
 //@      proof fn law_comm(a: Self::V, b: Self::V) {}
 //@      proof fn law_assoc(a: Self::V, b: Self::V, c: Self::V) {}
 //@    fn merge
+//@      touch self.v()
 //@end
 
 //@extract crates/radicle-crdt/src/lwwreg.rs
@@ -231,6 +238,7 @@ impl<T> FromSpecImpl<T> for Max<T> {
 //@          order_facts(a.0, b.0, c.0); order_facts(c.0, b.0, a.0); order_facts(a.0, c.0, b.0); order_facts(b.0, a.0, c.0); order_facts(b.0, c.0, a.0); order_facts(c.0, a.0, b.0);
 //@      }
 //@    fn merge
+//@      touch self.v()
 //@      head
 //@        proof { std_into_refl::<T>(other.value); }
 //@end
@@ -295,6 +303,7 @@ impl<T> FromSpecImpl<T> for Max<T> {
 //@          assert(l =~= r);
 //@      }
 //@    fn merge
+//@      touch self.v()
 //@      attr #[verifier::external_body] // BTreeMap::into_iter is outside vstd; contract checked by Kani (bounded) -- see kx/crdt
 //@end
 
@@ -323,6 +332,7 @@ impl<K, V> GMap<K, V> { pub closed spec fn raw(self) -> BTreeMap<K, V> { self.in
 //@      proof fn law_comm(a: Self::V, b: Self::V) { assert(a.union(b) =~= b.union(a)); }
 //@      proof fn law_assoc(a: Self::V, b: Self::V, c: Self::V) { assert(a.union(b).union(c) =~= a.union(b.union(c))); }
 //@    fn merge
+//@      touch self.v()
 //@      attr #[verifier::external_body] // BTreeMap::into_keys is outside vstd; contract checked by Kani (bounded) -- see kx/crdt
 //@end
 
@@ -362,7 +372,16 @@ impl<K, V> GMap<K, V> { pub closed spec fn raw(self) -> BTreeMap<K, V> { self.in
 //@      proof fn law_comm(a: Self::V, b: Self::V) { GMap::<K, LWWReg<Option<V>, C>>::law_comm(a, b); }
 //@      proof fn law_assoc(a: Self::V, b: Self::V, c: Self::V) { GMap::<K, LWWReg<Option<V>, C>>::law_assoc(a, b, c); }
 //@    fn merge
+//@      touch self.v()
 //@end
+
+/// stand-in for LWWMap::is_empty (`self.iter().next().is_none()` over a filter_map chain): result arbitrary.
+/// (Giving it the contract "no live entry" -- any ensures mentioning `self.lv()` -- makes Verus 0.2026.09.13 fail two
+/// unrelated, previously verified functions of this unit (Max::from / Max::merge); not understood, so no contract.)
+impl<K: Ord, V: Semilattice, C: PartialOrd + Ord> LWWMap<K, V, C> {
+    #[verifier::external_body]
+    pub(crate) fn is_empty(&self) -> bool { unimplemented!() }
+}
 
 //@extract crates/radicle-crdt/src/lwwset.rs
 //@  item struct LWWSet
@@ -390,6 +409,7 @@ impl<K, V> GMap<K, V> { pub closed spec fn raw(self) -> BTreeMap<K, V> { self.in
 //@      proof fn law_comm(a: Self::V, b: Self::V) { LWWMap::<T, (), C>::law_comm(a, b); }
 //@      proof fn law_assoc(a: Self::V, b: Self::V, c: Self::V) { LWWMap::<T, (), C>::law_assoc(a, b, c); }
 //@    fn merge
+//@      touch self.v()
 //@end
 
 // ---- lemmas: the sentences of the property that are not per-type ACI --------------------
